@@ -71,6 +71,7 @@ struct LockIface {
     virtual int locked() = 0;              // -1 unknown
     virtual bool timed() { return true; }
     virtual bool recursive() { return false; }
+    virtual const void* addr() { return nullptr; }
 };
 template <class M> struct MutexLike : LockIface {
     M m;
@@ -79,6 +80,7 @@ template <class M> struct MutexLike : LockIface {
     int try_lock() override { return m.try_lock(); }
     void unlock() override { m.unlock(); }
     int locked() override { return m.locked(); }
+    const void* addr() override { return &m; }
 };
 struct RecMutex : LockIface {
     recursive_mutex m;
@@ -129,6 +131,7 @@ static bool exec_lock_photon(const std::string& prim, int ex, vt::Rng& r) {
     int nth = 2 + (int)r.below(g_threads - 1);
     int nvc = 1 + (int)r.below(g_vcpus);
     bool with_intr = lk->timed() && r.coin(60);
+    vtp::reg().set(lk->addr(), 200);
     vt::Ev("Reset").s("prim", prim).i("ex", ex).i("n", nth).i("vcpus", nvc).i("retries", retries).i("cont", contending)
         .b("rec", lk->recursive()).b("timed", lk->timed());
     std::vector<std::unique_ptr<vtp::Worker>> own;
@@ -556,10 +559,94 @@ static bool exec_rw(const std::string& prim, int ex, vt::Rng& r) {
     Interrupter in; in.ws = &ws; in.seed = r.next(); in.budget = with_intr ? 1 + (int)r.below(3) : 0;
     vtp::Worker iw; iw.id = 99;
     if (in.budget) { iw.body = [&in] { in.loop(true); }; vtp::spawn_on(&iw, g_vc.vc[r.below(nvc)]); }
-    bool ok = vtp::wait_done(ws, 10 * 1000 * 1000, prim.c_str());
+    std::vector<int> blocked;
+    bool ok = wait_settle(ws, pg, blocked, prim.c_str());
     in.stop = true;
     if (iw.th) { while (!iw.done.load()) thread_usleep(100); thread_join(iw.jh); }
     if (!ok) return false;
+    if (!wait_settle(ws, pg, blocked, prim.c_str())) return false;
+    int guard = 0;
+    while (!blocked.empty() && guard++ < 20) {
+        // lockers asleep although every program that held the lock has ended: report, then get them out by interruption
+        vt::Arr a; for (int i : blocked) a.i(ws[i]->id);
+        vt::Ev("Settle").raw("blocked", a.str());
+        for (int i : blocked) { vt::Ev("Interrupt").i("t", ws[i]->id).i("by", 3); thread_interrupt(ws[i]->th, EINTR); }
+        if (!wait_settle(ws, pg, blocked, prim.c_str())) return false;
+    }
+    if (!vtp::wait_done(ws, 10 * 1000 * 1000, prim.c_str())) return false;
+    vtp::join_all(ws);
+    vt::Ev("Quiesce").i("locked", 0);
+    return true;
+}
+
+// rwlock::unlock() racing with the reader at the head of the queue leaving (interrupt / timeout) exactly between the
+// "is the head a writer?" test and the loop that wakes the run of readers (hook VT_RW_WAKE_READERS; any vCPU may deliver
+// such an interrupt at that instant).  One vCPU, deterministic.  Recorded like any other rwlock execution.
+static bool exec_rwrace(const std::string& prim, int ex, vt::Rng& r) {
+    rwlock rw;
+    int nw = 2 + (int)r.below(3);           // queued lockers behind the first holder
+    int n = nw + 1;
+    vt::Ev("Reset").s("prim", prim).i("ex", ex).i("n", n).i("vcpus", 1);
+    std::vector<std::unique_ptr<vtp::Worker>> own; std::vector<vtp::Worker*> ws; std::vector<Prog> pg(n);
+    for (int i = 0; i < n; i++) { own.emplace_back(new vtp::Worker()); own.back()->id = i + 1; ws.push_back(own.back().get()); }
+    std::atomic<int> stage{0};
+    auto lockop = [&](vtp::Worker* w, Prog* P, int mode) {
+        P->opno++;
+        vt::Ev("Inv").i("t", w->id).s("op", "lock").i("mode", mode).i("to", TO_INF);
+        P->blocked_in = 1; errno = 0;
+        int ret = rw.lock(mode == 1 ? RLOCK : WLOCK);
+        int en = ret < 0 ? errno : 0;
+        P->blocked_in = 0;
+        vt::Ev("Resp").i("t", w->id).s("op", "lock").i("r", ret).i("en", en);
+        return ret;
+    };
+    auto unlockop = [&](vtp::Worker* w, int mode) {
+        vt::Ev("CsEnter").i("t", w->id).i("mode", mode); vt::Ev("CsExit").i("t", w->id);
+        vt::Ev("Inv").i("t", w->id).s("op", "unlock");
+        int ret = rw.unlock();
+        vt::Ev("Resp").i("t", w->id).s("op", "unlock").i("r", ret).i("en", 0);
+    };
+    std::vector<int> modes(n);
+    modes[0] = r.coin(70) ? 2 : 1;
+    for (int i = 1; i < n; i++) modes[i] = r.coin(60) ? 1 : 2;
+    if (modes[0] == 1) modes[1] = 2;        // a reader holds: the first waiter must conflict to be queued
+    int fire_at = (int)r.below(2);          // which hook occurrence delivers the interrupt
+    ws[0]->body = [&] {                     // first holder
+        if (lockop(ws[0], &pg[0], modes[0]) != 0) return;
+        stage = 1;
+        while (stage.load() < n) thread_yield();
+        int seen = 0;
+        vtp::hook_callback() = [&](uint32_t id, const void*, uint64_t, uint64_t, uint64_t) {
+            if (id != VT_RW_WAKE_READERS && id != VT_RW_WOKE_FIRST) return;
+            if (seen++ != fire_at && id != VT_RW_WAKE_READERS) return;
+            vtp::hook_callback() = nullptr;
+            for (int i = 1; i < n; i++)     // the locker now at the head of the queue leaves it (interrupt from elsewhere)
+                if (thread_stat(ws[i]->th) == states::SLEEPING) {
+                    vt::Ev("Interrupt").i("t", ws[i]->id).i("by", 3);
+                    thread_interrupt(ws[i]->th, EINTR);
+                    break;
+                }
+        };
+        unlockop(ws[0], modes[0]);
+        vtp::hook_callback() = nullptr;
+    };
+    for (int i = 1; i < n; i++)
+        ws[i]->body = [&, i] {              // queued one after the other (arrival order is deterministic on one vCPU)
+            while (stage.load() < i || (i > 1 && thread_stat(ws[i - 1]->th) != states::SLEEPING)) thread_yield();
+            stage = i + 1;
+            if (lockop(ws[i], &pg[i], modes[i]) == 0) { if (r.coin(50)) thread_yield(); unlockop(ws[i], modes[i]); }
+        };
+    { vtp::GateGuard gg; for (int i = 0; i < n; i++) vtp::spawn_on(ws[i], g_vc.vc[0]); }
+    std::vector<int> blocked;
+    if (!wait_settle(ws, pg, blocked, prim.c_str())) return false;
+    int guard = 0;
+    while (!blocked.empty() && guard++ < 20) {
+        vt::Arr a; for (int i : blocked) a.i(ws[i]->id);
+        vt::Ev("Settle").raw("blocked", a.str());
+        for (int i : blocked) { vt::Ev("Interrupt").i("t", ws[i]->id).i("by", 3); thread_interrupt(ws[i]->th, EINTR); }
+        if (!wait_settle(ws, pg, blocked, prim.c_str())) return false;
+    }
+    if (!vtp::wait_done(ws, 10 * 1000 * 1000, prim.c_str())) return false;
     vtp::join_all(ws);
     vt::Ev("Quiesce").i("locked", 0);
     return true;
@@ -652,6 +739,10 @@ int main(int argc, char** argv) {
     set_log_output_level(ALOG_ERROR + 1);
     photon::init(photon::INIT_EVENT_EPOLL, photon::INIT_IO_NONE);
     g_t0 = photon::__update_now();
+    vtp::t0() = g_t0;
+    vtp::reg().set(photon::CURRENT, 100);
+    vtp::Perturb::seed() = g_seed; vtp::Perturb::level() = vt::flag(argc, argv, "--perturb") ? 1 : 0;
+    vtp::install_hooks(vt::flag(argc, argv, "--hooks"), vt::flag(argc, argv, "--heap"));
     g_vc.start(g_vcpus);
     vtp::Watchdog wd; wd.start(20, prim.c_str());
     vt::Rng r(g_seed * 1000003 + std::hash<std::string>()(prim) % 1000);
@@ -662,6 +753,7 @@ int main(int argc, char** argv) {
         else if (prim == "semdestroy") ok = exec_semdestroy(prim, ex, r);
         else if (prim == "cv" || prim == "cvspin") ok = exec_cv(prim, ex, r);
         else if (prim == "rw" || prim == "qrw") ok = exec_rw(prim, ex, r);
+        else if (prim == "rwrace") ok = exec_rwrace(prim, ex, r);
         else if (prim == "sleep") ok = exec_sleep(prim, ex, r);
         else ok = os_clients ? exec_lock_os(prim, ex, r) : exec_lock_photon(prim, ex, r);
         if (!ok) { rc = 4; break; }
